@@ -14,7 +14,7 @@ trap cleanup EXIT
 (cd /repo && git ls-files -mo --exclude-standard | grep "zz_verif_" | rsync -a --files-from=- /repo/ "$SW"/)
 if ! git -C "$SW" apply "$PATCH"; then echo "PATCH DOES NOT APPLY"; exit 2; fi
 mkdir -p "$SV"
-rsync -a --exclude .git --exclude run --exclude replays --exclude seeded /verif/ "$SV"/
+rsync -a --exclude .git --exclude run --exclude replays --exclude seeded "${VERIF_SRC:-/verif}"/ "$SV"/
 sed -i "s#=> /repo#=> $SW#" "$SV/harness/go.mod"
 rc=0
 for P in "$@"; do
